@@ -315,6 +315,11 @@ _LINALG_FUNCS = {"det": _det, "norm": _norm}
 def _einsum(spec, *ops):
     if "->" not in spec or "." in spec:
         raise NotSymbolic("implicit / ellipsis einsum")
+    if all(isinstance(o, np.ndarray) and o.dtype != object for o in ops):
+        try:
+            return np.einsum(spec, *ops)  # plain numbers: numpy's own contraction
+        except ValueError as exc:
+            raise ProgramError("ValueError") from exc
     ins, outs = spec.replace(" ", "").split("->")
     ins = ins.split(",")
     if len(ins) != len(ops):
